@@ -122,6 +122,9 @@ func oracle(c Case) error {
 	if got != got2 {
 		return fmt.Errorf("Resolve(%q) is not deterministic: %s then %s", c.Link, got, got2)
 	}
+	if strings.HasPrefix(got, "nil-") {
+		return fmt.Errorf("Resolve(%q) returned neither a link nor an error (%s)", c.Link, got)
+	}
 	if c.Want != "" && got != c.Want {
 		return fmt.Errorf("Resolve(%q) = %s, want %s (%s)", c.Link, got, c.Want, c.Why)
 	}
@@ -155,7 +158,7 @@ func gen(t *rapid.T) (Case, string) {
 		}
 		return Case{Link: str, Why: "arbitrary string: totality only"}, "soup"
 	}
-	scheme := rapid.SampledFrom([]string{"", "", "http://", "https://", "HTTPS://", "Http://", "tg://", "ftp://", "//", "ws://", "mailto:"}).Draw(t, "scheme")
+	scheme := rapid.SampledFrom([]string{"", "", "http://", "https://", "HTTPS://", "Http://", "tg://", "ftp://", "//", "ws://", "mailto:", "http:", "https:", "HTTPS:", "http:/", "https:///"}).Draw(t, "scheme")
 	hostKind := rapid.SampledFrom([]string{"reserved", "reserved", "reserved", "lookalike", "upper", "empty"}).Draw(t, "hostkind")
 	var host string
 	switch hostKind {
@@ -206,8 +209,8 @@ func gen(t *rapid.T) (Case, string) {
 		if utf8.ValidString(link) {
 			c.Want, c.Why = "err", "scheme other than http(s)"
 		}
-	case scheme == "//":
-		// protocol-relative: accepted either way
+	case scheme == "//" || (strings.HasSuffix(scheme, ":") && scheme != "mailto:") || scheme == "http:/" || scheme == "https:///":
+		// protocol-relative, or http(s) without the authority slashes: a link or an error, either way
 	case hostKind == "upper" || pathKind == "escaped" || pathKind == "doubleslash":
 		// accepted either way (no assertion beyond totality)
 	case !schemeOK:
